@@ -2,8 +2,8 @@ SPECIFICATION Spec
 CONSTANTS
   MaxHn = 4
   Bug = ""
-  Alphabet <- AlphabetCore
-  MaxLen = 4
+  Alphabet <- AlphabetQuick
+  MaxLen = 5
   LH = 2
   RH = 0
   Devs <- NoDevs
